@@ -1,5 +1,5 @@
 (** C03 — sort_strings yields a sorted permutation and exact LCP values.
-    Statements only; proofs live in C03/{SpecProofs,Sorters,LcpInsertion,Radix8,Mkqs,Radix16,InPlace,InPlace16,Dispatch}.v.
+    Statements only; proofs live in C03/{SpecProofs,Sorters,LcpInsertion,Radix8,Mkqs,PartTotal,Radix16,InPlace,InPlace16,Dispatch}.v.
     The model (C03/Model.v) is tied to /repo on every run by translate/sizes_c03.py (sizeof / threshold constants) and
     by the correspondence run of checks/C03.py (extracted model vs. the real sorters; extracted checker on the real
     output).
@@ -10,7 +10,7 @@
     (each selectable sequential sorter at every depth with a common prefix).  The only hypothesis is that the
     fuelled functions return a result ([= Some _]; fuel exhaustion is the error value). *)
 From Coq Require Import List NArith Sorting.Permutation Sorting.Sorted.
-From TLXV Require Import C03.Model C03.Spec C03.SpecProofs C03.Lemmas C03.Sorters C03.LcpInsertion C03.Radix8 C03.Mkqs C03.Radix16 C03.InPlace C03.InPlace16 C03.Dispatch.
+From TLXV Require Import C03.Model C03.Spec C03.SpecProofs C03.Lemmas C03.Sorters C03.LcpInsertion C03.Radix8 C03.Mkqs C03.PartTotal C03.Radix16 C03.InPlace C03.InPlace16 C03.Dispatch.
 Import ListNotations.
 
 (** Any two outputs satisfying SortedPermLcp for the same input have the same contents at every position and the
@@ -126,6 +126,18 @@ Proof.
     conj (radixsort_CE2_ok sz wl fuel mem) (conj (radixsort_CE3_ok sz wl fuel mem) (radixsort_CI3_ok sz wl fuel mem))).
 Qed.
 Print Assumptions C03_detail_sorters.
+
+(** Termination of the Bentley-Sedgewick partition loop of multikey quicksort, for every input: with fuel above the
+    number of unexamined elements (mkqs passes [S n] for the n - 1 elements behind the pivot) [part_loop] never
+    returns the error value -- neither by running out of fuel nor through its "one element stopped both scans"
+    branch.  This removes one of the sources of [None] that the sorter theorems above exclude by hypothesis; the
+    others (recursion fuel of mkqs / the radix steps, the in-place permutation's bucket pointers) remain tied by
+    the per-case "model returned a result" check of the correspondence run. *)
+Theorem C03_mkqs_partition_total : forall pv d,
+  (forall fuel EQL LT U GT EQR, length U < fuel -> part_loop fuel pv d EQL LT U GT EQR <> None) /\
+  (forall (l : list item) j, part_loop (S (length l)) pv d [] [] (tl (swap_idx l 0 j)) [] [] <> None).
+Proof. exact (fun pv d => conj (part_loop_total pv d) (mkqs_partition_total pv d)). Qed.
+Print Assumptions C03_mkqs_partition_total.
 
 (** The LCP boundary loop as shipped (704fd0b) reads bkt_size[256] when every string ends at the current depth
     (40 empty strings); the repaired loop (fixes/C03/01) yields exactly their LCPs. *)
